@@ -38,7 +38,17 @@ impl InferenceRule for MappingAccessRule {
                 return Ok(());
             };
 
-            let p = projection.unwrap_or(0);
+            // The projection is a constant that the bytecode adds to the hash, so it can be
+            // arbitrarily large. A field index that does not fit in 32 bits does not describe a
+            // field of any value that could exist, and keeping it out also keeps the bit
+            // offsets of (nested) packed spans far away from the limits of `usize`
+            let Some(offset) = u32::try_from(projection.unwrap_or(0))
+                .ok()
+                .and_then(|p| usize::try_from(p).ok())
+                .and_then(|p| p.checked_mul(WORD_SIZE_BITS))
+            else {
+                return Ok(());
+            };
             let key_tv = state.var_unchecked(key);
             let original_val_ty = state.var_unchecked(value);
             let val_ty = unsafe { state.allocate_ty_var() };
@@ -47,7 +57,7 @@ impl InferenceRule for MappingAccessRule {
                 val_ty,
                 TE::packed_of(vec![Span::new(
                     original_val_ty,
-                    p * WORD_SIZE_BITS,
+                    offset,
                     WORD_SIZE_BITS,
                 )]),
             );
